@@ -56,6 +56,16 @@ LoadYields(ret, live, t, filt, flags) ==
   /\ \A i \in Pos(t) : O(t, i).ud = 0
 \* WellFormed(t) (Topology.tla) is conjoined by the caller, which may know it already for this very projection
 
+\* documented effects of the configuration on what discovery keeps (hwloc.h, topology flags; doc of HWLOC_FSROOT):
+\* NO_DISTANCES / NO_CPUKINDS ignore what the operating system reports, and a topology read from another
+\* file-system root is not this system
+FLAG_NO_DISTANCES == 128   FLAG_NO_CPUKINDS == 512
+LinuxSelections == {"linux,stop", "x86,linux,stop", "linux,x86,stop"}
+ConfigRespected(t, flags, kind, comp) ==
+  /\ Bit(flags, FLAG_NO_DISTANCES) => t.stores.dist = <<>>
+  /\ Bit(flags, FLAG_NO_CPUKINDS) => t.stores.ck = <<>>
+  /\ (kind \in {"linux", "x86+linux"} /\ comp \in LinuxSelections) => t.thissystem = 0
+
 \* (2) two loads of the same snapshot, fault set and configuration give the same outcome and the same projection
 Deterministic(o1, o2) == o1.ret = o2.ret /\ o1.pd = o2.pd
 
